@@ -14,3 +14,7 @@ pub use config::DelegatedSafetyConfig;
 pub(crate) use handler::{GrevmHandler, ReserveMode};
 pub(crate) use instructions::gravity_instructions;
 pub(crate) use reserve::{ReserveJournalExt, ReservePlanner};
+#[cfg(grevm_verif)]
+pub(crate) use reserve::verif_balance_before_entry;
+#[cfg(grevm_verif)]
+pub(crate) use handler::verif_has_reserve_violation;
